@@ -33,9 +33,15 @@ def story_node(sid):
                                      node("item", "I1", "x:item.%s.I1" % sid), node("p", NONE, "x:p.%s" % sid)])
 
 
-def ro_shape(mid, roid):
-    return {"root": [node("mosID", NONE, "x:mosID"), node("ncsID", NONE, "x:ncsID"),
-                     node("messageID", str(mid), "="), node("roCreate", NONE, NONE)],
+def ro_shape(mid, roid, done=False, late_mid=False):
+    """done: the document already carries a completion record; late_mid: <messageID> follows the message element"""
+    root = [node("mosID", NONE, "x:mosID"), node("ncsID", NONE, "x:ncsID"),
+            node("messageID", str(mid), "="), node("roCreate", NONE, NONE)]
+    if late_mid:
+        root = [root[0], root[1], root[3], root[2]]
+    if done:
+        root.append(node("mosromgrmeta", NONE, NONE, [node("roDelete", NONE, "x:roDelete.earlier")]))
+    return {"root": root,
             "kids": [node("roID", roid, "="), node("roSlug", NONE, "x:roSlug"), node("roEdStart", NONE, "ed:0"),
                      story_node("S1"), story_node("S2")]}
 
@@ -67,12 +73,13 @@ def abstract_msg(kind, mid):
 MID_STYLES = {"plain": lambda m: m,
               "neg": lambda m: m - 12,              # negative ids, zero, positive ids
               "big": lambda m: m + 2 ** 53,         # 16 digits: neighbours are not distinct as floats
-              "wide": lambda m: m + 10 ** 10}       # 11 digits: beyond 32 bits
+              "wide": lambda m: m + 10 ** 10,       # 11 digits: beyond 32 bits
+              "huge": lambda m: m * 8 + 2 ** 62}    # 19 digits, 8 apart: neighbours are one double
 UNKNOWN_MID = -7
 
 
 def mid_style(seed, cid):
-    return random.Random("%s|%s|midstyle" % (seed, cid)).choice(["plain", "plain", "neg", "big", "wide"])
+    return random.Random("%s|%s|midstyle" % (seed, cid)).choice(["plain", "plain", "neg", "big", "wide", "huge"])
 
 
 def mid_maps(docs, style):
@@ -84,12 +91,19 @@ def mid_maps(docs, style):
 def render_docs(docs, seed, cid, style="plain"):
     g = Gamma("%s|%s" % (seed, cid))
     f = MID_STYLES[style]
+    r = random.Random("%s|%s|roid" % (seed, cid))
+    # the two running-order ids of the model ("RO1" and "RO1 ": another id) in spellings that differ by a trailing blank,
+    # by case only, or by Unicode normalisation only
+    ro_ids = r.choice([{}, {}, {"RO1": "Ro-1", "RO1 ": "RO-1"}, {"RO1": "caf\u00e9", "RO1 ": "cafe\u0301"},
+                       {"RO1": "RO\u00a01", "RO1 ": "RO 1"}])
+    late = r.random() < 0.3
+    g.roid = lambda x: ro_ids.get(x, x)          # also spells the roID inside a <roDelete>
     texts = []
     for d in docs:
-        if d["kind"] == "roCreate":
-            texts.append(g.ro(ro_shape(f(d["mid"]), d["roid"])))
+        if d["kind"] in ("roCreate", "roCreateDone"):
+            texts.append(g.ro(ro_shape(f(d["mid"]), g.roid(d["roid"]), done=d["kind"] == "roCreateDone", late_mid=late)))
         else:
-            texts.append(g.msg(abstract_msg(d["kind"], d["mid"]), message_id=f(d["mid"]), ro_id=d["roid"]))
+            texts.append(g.msg(abstract_msg(d["kind"], d["mid"]), message_id=f(d["mid"]), ro_id=d["roid"], late_mid=late))
     return texts
 
 
@@ -221,10 +235,18 @@ def run_collection(cid, docs, allow, strict, via, seed, tracer, tmproot):
                         shutil.rmtree(tmpdir)
                     os.makedirs(tmpdir)
                     paths = []
+                    # now and then the files are named through a symbolic link and "..": <tmp>/link/../fNN is
+                    # <tmp>/real/fNN for the operating system (link -> real/deep), not <tmp>/fNN
+                    via_link = random.Random("%s|%s|link" % (seed, cid)).random() < 0.25
+                    if via_link:
+                        os.makedirs(os.path.join(tmpdir, "real", "deep"))
+                        os.symlink(os.path.join("real", "deep"), os.path.join(tmpdir, "link"))
                     for i, t in enumerate(texts):
-                        p = os.path.join(tmpdir, "f%02d.mos.xml" % i)
+                        p = os.path.join(tmpdir, "real" if via_link else "", "f%02d.mos.xml" % i)
                         with open(p, "wb") as fh:
                             fh.write(as_bytes(t))
+                        if via_link:
+                            p = os.path.join(tmpdir, "link", "..", "f%02d.mos.xml" % i)
                         paths.append(pathlib.Path(p) if i % 2 else p)       # Path objects and plain strings alike
                     mc = MosCollection.from_files(paths, allow_incomplete=allow)
                 else:
@@ -255,10 +277,10 @@ def run_collection(cid, docs, allow, strict, via, seed, tracer, tmproot):
                 ref = None
                 ref_err = None
                 for i in order:
-                    if docs[i]["kind"] == "roCreate":
+                    if docs[i]["kind"] in ("roCreate", "roCreateDone"):
                         ref = RunningOrder.from_string(texts[i])
                 for i in order:
-                    if docs[i]["kind"] == "roCreate" or ref is None:
+                    if docs[i]["kind"] in ("roCreate", "roCreateDone") or ref is None:
                         continue
                     try:
                         ref = ref + MosFile.from_string(texts[i])
